@@ -666,6 +666,10 @@ class ExecuteMessage(_QueryMessage):
                 raise UnsupportedOperation(
                     "Automatic query paging may only be used with protocol version "
                     "2 or higher. Consider setting Cluster.protocol_version to 2.")
+            if self.continuous_paging_options:
+                raise UnsupportedOperation(
+                    "Continuous paging may only be used with protocol version "
+                    "ProtocolVersion.DSE_V1 or higher. Consider setting Cluster.protocol_version to ProtocolVersion.DSE_V1.")
             write_short(f, len(self.query_params))
             for param in self.query_params:
                 write_value(f, param)
